@@ -1,7 +1,7 @@
 (* C17 - lemmas and proofs. *)
 From ASV Require Import Base Loc.
 From ASV.C03 Require Model.
-From ASV.C05 Require Model.
+From ASV.C05 Require Model Proofs.
 From ASV.C13 Require Model Proofs.
 From ASV.C17 Require Import Model.
 From Coq Require Import Sorting.Sorted Sorting.Permutation ZifyBool.
@@ -272,6 +272,219 @@ Proof.
   split; [apply perm_swap|]. split.
   - constructor; [intros [H|[]]; discriminate|constructor; [intros []|constructor]].
   - split; [vm_compute; discriminate|vm_compute; reflexivity].
+Qed.
+
+Lemma filter_perm {A} (f : A -> bool) : forall l l', Permutation l l' -> Permutation (filter f l) (filter f l').
+Proof.
+  intros l l' H. induction H as [|a l l' H IH|a b l|l l' l'' H1 IH1 H2 IH2]; cbn [filter].
+  - apply Permutation_refl.
+  - destruct (f a); [apply perm_skip|]; exact IH.
+  - destruct (f a), (f b); try apply Permutation_refl. apply perm_swap.
+  - exact (Permutation_trans IH1 IH2).
+Qed.
+
+(* ================================================================== stage 0: filter_results, memory layout *)
+Module M13 := C13.Model.
+Lemma rr_fmem : forall rho x S, M13.fmem (rerank rho x) (map (rerank rho) S) = M13.fmem x S.
+Proof. intros rho x S. unfold M13.fmem. induction S as [|y S IH]; cbn [map existsb]; [reflexivity|]. rewrite IH. reflexivity. Qed.
+
+Lemma filter_map_comm {A B} (f : B -> bool) (g : A -> B) : forall l, filter f (map g l) = map g (filter (fun x => f (g x)) l).
+Proof. induction l as [|x r IH]; cbn [map filter]; [reflexivity|]. destruct (f (g x)); cbn [map]; rewrite IH; reflexivity. Qed.
+
+Lemma existsb_map' {A B} (f : B -> bool) (g : A -> B) : forall l, existsb f (map g l) = existsb (fun x => f (g x)) l.
+Proof. induction l as [|x r IH]; cbn [map existsb]; [reflexivity|]. rewrite IH. reflexivity. Qed.
+Lemma forallb_map' {A B} (f : B -> bool) (g : A -> B) : forall l, forallb f (map g l) = forallb (fun x => f (g x)) l.
+Proof. induction l as [|x r IH]; cbn [map forallb]; [reflexivity|]. rewrite IH. reflexivity. Qed.
+
+Lemma rr_fgrow : forall rho cds S, M13.fgrow (map (rerank rho) cds) (map (rerank rho) S) = map (rerank rho) (M13.fgrow cds S).
+Proof.
+  intros rho cds S. unfold M13.fgrow. rewrite map_app. f_equal. rewrite filter_map_comm. f_equal. apply filter_ext.
+  intros x. rewrite rr_fmem. f_equal. rewrite existsb_map'. reflexivity.
+Qed.
+
+Lemma rr_fclosure : forall rho n cds S,
+  M13.fclosure n (map (rerank rho) cds) (map (rerank rho) S) = map (rerank rho) (M13.fclosure n cds S).
+Proof. intros rho. induction n as [|n IH]; intros cds S; cbn [M13.fclosure]; [reflexivity|]. rewrite rr_fgrow. apply IH. Qed.
+
+Lemma rr_comp_best : forall rho cds h, M13.comp_best (map (rerank rho) cds) (rerank rho h) = M13.comp_best cds h.
+Proof.
+  intros rho cds h. unfold M13.comp_best, M13.fcomp. rewrite map_length.
+  change [rerank rho h] with (map (rerank rho) [h]). rewrite rr_fclosure. rewrite forallb_map'. reflexivity.
+Qed.
+
+Lemma rr_step_spec : forall rho eqg results mine,
+  M13.fr_step_spec eqg (map (rerank rho) results) (map (rerank rho) mine)
+  = let '(r, m, app) := M13.fr_step_spec eqg results mine in (map (rerank rho) r, map (rerank rho) m, app).
+Proof.
+  intros rho eqg results mine. unfold M13.fr_step_spec.
+  assert (Ec : M13.competing eqg (map (rerank rho) mine) = M13.competing eqg mine).
+  { unfold M13.competing. rewrite map_map. reflexivity. }
+  rewrite Ec. destruct (M13.competing eqg mine); [|reflexivity].
+  assert (Ek : filter (M13.comp_best (map (rerank rho) mine)) (map (rerank rho) mine) = map (rerank rho) (filter (M13.comp_best mine) mine)).
+  { rewrite filter_map_comm. f_equal. apply filter_ext. intros x. apply rr_comp_best. }
+  assert (Ed : filter (fun h => negb (M13.comp_best (map (rerank rho) mine) h)) (map (rerank rho) mine)
+               = map (rerank rho) (filter (fun h => negb (M13.comp_best mine h)) mine)).
+  { rewrite filter_map_comm. f_equal. apply filter_ext. intros x. rewrite rr_comp_best. reflexivity. }
+  rewrite Ek, Ed. f_equal; [f_equal|].
+  - rewrite filter_map_comm. f_equal. apply filter_ext. intros x. rewrite rr_fmem. reflexivity.
+  - unfold M13.fwf, M13.distinct_scores. rewrite !map_map. rewrite forallb_map'. reflexivity.
+Qed.
+
+(* the hits kept by filter_results for a gene are the same for every memory layout, provided the gene's hits have
+   pairwise distinct bitscores *)
+Lemma filter_gene_layout_proof : forall eqg results mine rho rho',
+  M13.fwf mine = true -> M13.distinct_scores mine = true ->
+  filter_gene_o rho eqg results mine = filter_gene_o rho' eqg results mine /\
+  exists r m, filter_gene_o rho eqg results mine = Ok (r, m).
+Proof.
+  intros eqg results mine rho rho' Hw Hd.
+  assert (Hspec : forall r, exists rem,
+            M13.fr_cds eqg (Ok (map (rerank r) results, [])) (map (rerank r) mine)
+            = (Ok (map (rerank r) (fst (fst (M13.fr_step_spec eqg results mine))), rem),
+               map (rerank r) (snd (fst (M13.fr_step_spec eqg results mine))))).
+  { intros r. pose proof (rr_step_spec r eqg results mine) as E.
+    destruct (M13.fr_step_spec eqg results mine) as [[r0 m0] app0] eqn:E0. cbn [fst snd].
+    assert (Happ : app0 = true).
+    { unfold M13.fr_step_spec in E0. destruct (M13.competing eqg mine); inversion E0; [rewrite Hw, Hd|]; reflexivity. }
+    apply (C13.Proofs.fr_cds_meets_spec eqg _ [] _ _ _ app0 E Happ). intros i []. }
+  assert (Hid : forall r l, map M13.f_id (map (rerank r) l) = map M13.f_id l) by (intros r l; rewrite map_map; reflexivity).
+  unfold filter_gene_o.
+  destruct (Hspec rho) as [rem1 E1]. destruct (Hspec rho') as [rem2 E2]. rewrite E1, E2. rewrite !Hid.
+  split; [reflexivity|]. eexists. eexists. reflexivity.
+Qed.
+
+(* ... and follow the layout when two overlapping hits of competing profiles tie on the bitscore (finding
+   filter_results_score_tie_set_order): same input, ranks swapped, the other hit survives *)
+Definition w_f1 := M13.mkFH 0 0 10 200 100 0.
+Definition w_f2 := M13.mkFH 1 1 10 200 100 0.
+Lemma filter_gene_tie_refuted_proof : exists eqg results mine rho rho',
+  M13.fwf mine = true /\ NoDup (map M13.f_id mine) /\
+  filter_gene_o rho eqg results mine <> filter_gene_o rho' eqg results mine.
+Proof.
+  exists [0; 1], [w_f1; w_f2], [w_f1; w_f2], (fun i => i), (fun i => 1 - i).
+  split; [vm_compute; reflexivity|]. split; [|vm_compute; discriminate].
+  cbn. constructor; [intros [H|[]]; discriminate|constructor; [intros []|constructor]].
+Qed.
+
+(* ================================================================== terpene filter_incomplete *)
+Lemma start_lt_irrefl : forall a, M13.start_lt a a = false.
+Proof. intros a. unfold M13.start_lt. lia. Qed.
+Lemma start_lt_trans : forall a b c, M13.start_lt a b = true -> M13.start_lt b c = true -> M13.start_lt a c = true.
+Proof. intros a b c. unfold M13.start_lt. lia. Qed.
+
+Lemma hits_of_perm : forall g l l', Permutation l l' -> Permutation (M13.hits_of g l) (M13.hits_of g l').
+Proof. intros g l l' H. unfold M13.hits_of. apply Permutation_map. apply filter_perm. exact H. Qed.
+
+(* same result for every enumeration of the gather_by_query sets, unless two different hits of one gene start at the
+   same position *)
+Lemma terpene_filter_perm_proof : forall t o o', Permutation o o' ->
+  (forall g a b, In (g, a) o -> In (g, b) o -> M13.st a = M13.st b -> a = b) ->
+  terpene_filter_o t o = terpene_filter_o t o'.
+Proof.
+  intros t o o' Hp Hg.
+  assert (E : forall x, In x o <-> In x o').
+  { intros x. split; intros Hx; [apply (Permutation_in _ Hp)|apply (Permutation_in _ (Permutation_sym Hp))]; exact Hx. }
+  unfold terpene_filter_o.
+  assert (F : forallb (fun gh : Z * M13.hit => M13.ppresent t (M13.prof (snd gh))) o
+            = forallb (fun gh : Z * M13.hit => M13.ppresent t (M13.prof (snd gh))) o').
+  { apply eq_true_iff_eq. rewrite !forallb_forall. split; intros G x Hx; apply G; apply E; exact Hx. }
+  rewrite F. destruct (forallb (fun gh : Z * M13.hit => M13.ppresent t (M13.prof (snd gh))) o'); [|reflexivity].
+  rewrite (C13.Proofs.genes_of_ext o o' E). f_equal. f_equal. apply map_ext. intros g. f_equal.
+  unfold terpene_gene. f_equal.
+  apply (sort_by_perm_unique M13.start_lt start_lt_irrefl start_lt_trans).
+  - apply NoDup_Permutation.
+    + apply C13.Proofs.dedupe_NoDup. exact C13.Proofs.hit_eqb_eq.
+    + apply C13.Proofs.dedupe_NoDup. exact C13.Proofs.hit_eqb_eq.
+    + intros x. rewrite !(C13.Proofs.dedupe_In M13.hit_eqb C13.Proofs.hit_eqb_eq).
+      split; apply Permutation_in; [apply hits_of_perm; exact Hp|apply hits_of_perm; apply Permutation_sym; exact Hp].
+  - intros a b Ia Ib H1 H2.
+    apply (proj1 (C13.Proofs.dedupe_In M13.hit_eqb C13.Proofs.hit_eqb_eq _ _)) in Ia.
+    apply (proj1 (C13.Proofs.dedupe_In M13.hit_eqb C13.Proofs.hit_eqb_eq _ _)) in Ib.
+    apply (proj1 (C13.Proofs.hits_of_In _ _ _)) in Ia. apply (proj1 (C13.Proofs.hits_of_In _ _ _)) in Ib.
+    apply (Hg g a b Ia Ib). unfold M13.start_lt in H1, H2. lia.
+Qed.
+
+(* two complete hits of different profiles starting at the same position come out in enumeration order (finding
+   terpene_start_tie_set_order); refine_hmmscan_results (total key since 6f19f05d) gives one result on the same input *)
+Definition w_t1 := M13.mkHit 0 5 40 1 20.
+Definition w_t2 := M13.mkHit 1 5 60 1 20.
+Lemma terpene_filter_refuted_proof : exists t o o',
+  Permutation o o' /\ NoDup o /\ terpene_filter_o t o <> terpene_filter_o t o' /\
+  refine_o true t o = refine_o true t o'.
+Proof.
+  exists [(1, 30, 0); (1, 50, 0)], [(0, w_t1); (0, w_t2)], [(0, w_t2); (0, w_t1)].
+  split; [apply perm_swap|]. split.
+  - constructor; [intros [H|[]]; discriminate|constructor; [intros []|constructor]].
+  - split; [vm_compute; discriminate|vm_compute; reflexivity].
+Qed.
+
+(* ================================================================== CDSResults.annotate *)
+Lemma annotate_refuted_proof : exists defs defs',
+  Forall2 (fun d d' => fst d = fst d' /\ forall x, In x (snd d) <-> In x (snd d')) defs defs' /\
+  annotate_core defs <> annotate_core defs' /\ annotate_core_sorted defs = annotate_core_sorted defs'.
+Proof.
+  exists [([114], [[97]; [98]])], [([114], [[98]; [97]])]. split; [|split].
+  - constructor; [|constructor]. split; [reflexivity|]. intros x. cbn. tauto.
+  - vm_compute. discriminate.
+  - vm_compute. reflexivity.
+Qed.
+
+Lemma annotate_sorted_proof : forall defs defs',
+  Forall2 (fun d d' => fst d = fst d' /\ forall x, In x (snd d) <-> In x (snd d')) defs defs' ->
+  annotate_core_sorted defs = annotate_core_sorted defs'.
+Proof.
+  intros defs defs' H. unfold annotate_core_sorted. induction H as [|d d' r r' [H1 H2] H IH]; [reflexivity|].
+  cbn [flat_map]. rewrite IH. rewrite (sorted_set_ext_proof _ _ H2). rewrite H1. reflexivity.
+Qed.
+
+(* with at most one definition domain per cluster type nothing is exposed *)
+Lemma annotate_single_proof : forall defs defs',
+  Forall2 (fun d d' => fst d = fst d' /\ forall x, In x (snd d) <-> In x (snd d')) defs defs' ->
+  Forall (fun d => forall x y, In x (snd d) -> In y (snd d) -> x = y) defs ->
+  annotate_core defs = annotate_core defs'.
+Proof.
+  intros defs defs' H. unfold annotate_core. induction H as [|d d' r r' [H1 H2] H IH]; intros Hs; [reflexivity|].
+  inversion Hs as [|? ? Hd Hr]; subst. cbn [flat_map]. rewrite (IH Hr). rewrite H1. f_equal. f_equal.
+  (* list_of_set of two enumerations of a set with at most one element *)
+  unfold list_of_set.
+  assert (Hone : forall o o' : list (list Z), (forall x, In x o <-> In x o') -> (forall x y, In x o -> In y o -> x = y) ->
+                 C13.Model.dedupe str_eqb o = C13.Model.dedupe str_eqb o').
+  { intros o o' Hoo Huniq.
+    assert (Hn : forall l : list (list Z), (forall x y, In x l -> In y l -> x = y) ->
+                 C13.Model.dedupe str_eqb l = match l with [] => [] | x :: _ => [x] end).
+    { intros l Hl.
+      assert (Hnd : NoDup (C13.Model.dedupe str_eqb l)) by (apply C13.Proofs.dedupe_NoDup; exact str_eqb_eq).
+      assert (Hin : forall x, In x (C13.Model.dedupe str_eqb l) <-> In x l) by (intros x; apply C13.Proofs.dedupe_In; exact str_eqb_eq).
+      destruct l as [|a t].
+      - destruct (C13.Model.dedupe str_eqb []) as [|b u] eqn:E; [reflexivity|]. exfalso. apply (proj1 (Hin b)). left. reflexivity.
+      - destruct (C13.Model.dedupe str_eqb (a :: t)) as [|b u] eqn:E.
+        + exfalso. apply (proj2 (Hin a)). left. reflexivity.
+        + assert (b = a) by (apply Hl; [apply Hin; left; reflexivity|left; reflexivity]). subst b.
+          destruct u as [|c u']; [reflexivity|]. exfalso.
+          assert (c = a) by (apply Hl; [apply Hin; right; left; reflexivity|left; reflexivity]). subst c.
+          inversion Hnd as [|? ? Hna _]; subst. apply Hna. left. reflexivity. }
+    rewrite (Hn o Huniq).
+    assert (Huniq' : forall x y, In x o' -> In y o' -> x = y) by (intros x y Hx Hy; apply Huniq; apply Hoo; assumption).
+    rewrite (Hn o' Huniq').
+    destruct o as [|a t]; destruct o' as [|a' t']; try reflexivity.
+    - exfalso. apply (proj2 (Hoo a')). left. reflexivity.
+    - exfalso. apply (proj1 (Hoo a)). left. reflexivity.
+    - f_equal. apply Huniq; [left; reflexivity|apply Hoo; left; reflexivity]. }
+  apply Hone; assumption.
+Qed.
+
+(* ================================================================== get_unique_protoclusters, origin-crossing branch:
+   the guard of unique_crossing_perm_proof is needed (finding unique_crossing_same_product_set_order) *)
+Lemma unique_crossing_refuted_proof : exists N o o',
+  Permutation o o' /\ NoDup (map uid o) /\
+  (forall a b, In a o -> In b o -> (ucs a, uce a) = (ucs b, uce b) -> a = b) /\
+  map uid (unique_crossing N o) <> map uid (unique_crossing N o').
+Proof.
+  exists 1000, [mkU 0 900 100 200 0 950 980; mkU 1 900 100 200 0 20 60], [mkU 1 900 100 200 0 20 60; mkU 0 900 100 200 0 950 980].
+  split; [apply perm_swap|]. split; [cbn; constructor; [intros [H|[]]; discriminate|constructor; [intros []|constructor]]|].
+  split; [|vm_compute; discriminate].
+  intros a b Ia Ib E. cbn in Ia, Ib.
+  destruct Ia as [<-|[<-|[]]]; destruct Ib as [<-|[<-|[]]]; try reflexivity; vm_compute in E; discriminate.
 Qed.
 
 (* ================================================================== stage 3: anchoring genes *)
@@ -649,29 +862,713 @@ Lemma singles_visit_perm_proof : forall u u', Forall simple u -> Permutation u u
   forall w ex, singles_go w ex (ordered_list u) = singles_go w ex (ordered_list u').
 Proof. intros u u' Hs Hp Hg w ex. rewrite (ordered_perm_proof u u' Hs Hp Hg). reflexivity. Qed.
 
+(* ================================================================== stage 4: the whole formation, every enumeration *)
+Import FO.
+Module P5 := ASV.C05.Proofs.
+
+Definition enumerator (en : enum) : Prop := forall k s, Permutation (en k s) (iter s).
+(* an enumeration that cannot be told from ascending id after the two PLAIN location sorts of the formation
+   (sites 7, 9: `sorted(a set)` without the product pre-sort) *)
+Definition tie_neutral (P : list proto) (en : enum) : Prop :=
+  (forall s, incl s P -> sort_by lt_pp (en 7 s) = sort_by lt_pp (iter s)) /\
+  (forall s, incl s P -> sort_by lt_pp (en 9 s) = sort_by lt_pp (iter s)).
+(* proper single-part location; proper2: ... and a proper single-part core that does not start before the location *)
+Definition proper (p : proto) : Prop := exists q, ploc p = [q] /\ ps q < pe q.
+Definition proper2 (p : proto) : Prop :=
+  proper p /\ exists q, pcore p = [q] /\ ps q < pe q /\ lstart (ploc p) <= ps q.
+(* site 5 (`sorted(unassigned, key=core start)` feeding the scans of _find_hybrids) and site 8 (first-match loop over
+   the set for origin-crossing edge candidates): on a LINEAR record every enumeration gives the same result (the scan
+   selects by containment, site 8 is never reached); on a circular record they are assumed to follow ascending id *)
+Definition linear_or_neutral (P : list proto) (w : option Z) (en : enum) : Prop :=
+  (w = None /\ Forall proper2 P) \/
+  ((forall s, incl s P -> sort_by core_start_lt (en 5 s) = sort_by core_start_lt (iter s)) /\
+   (forall s, incl s P -> en 8 s = iter s)).
+
+(* ---------- generic helpers for the scan of _find_hybrids ---------- *)
+Lemma filter_none {A} (f : A -> bool) : forall l, Forall (fun x => f x = false) l -> filter f l = [].
+Proof. induction l as [|x r IH]; intros H; [reflexivity|]. inversion H; subst. cbn [filter]. rewrite H2. apply IH. exact H3. Qed.
+
+Lemma Forall_firstn {A} (Q : A -> Prop) : forall n l, Forall Q l -> Forall Q (firstn n l).
+Proof. intros n l H. rewrite <- (firstn_skipn n l) in H. apply Forall_app in H. exact (proj1 H). Qed.
+
+Lemma sorted_app_le : forall l1 x l2, StronglySorted Z.le (l1 ++ x :: l2) -> Forall (fun y => y <= x) l1.
+Proof.
+  induction l1 as [|a r IH]; intros x l2 H; [constructor|]. cbn [app] in H. inversion H as [|? ? H1 H2]; subst.
+  constructor; [|exact (IH x l2 H1)]. rewrite Forall_forall in H2. apply H2. apply in_or_app. right. left. reflexivity.
+Qed.
+
+Lemma bisect_go_prefix (X : Z) (l : list Z) (Hs : StronglySorted Z.le l) : forall fuel lo hi,
+  Forall (fun y => y < X) (firstn lo l) ->
+  Forall (fun y => y < X) (firstn (bisect_go (fun x => x <? X) l fuel lo hi) l).
+Proof.
+  induction fuel as [|f IH]; intros lo hi H; cbn [bisect_go]; [exact H|].
+  destruct (Nat.ltb lo hi); [|exact H].
+  destruct (nth_error l (Nat.div2 (lo + hi))) as [e|] eqn:En; [|exact H].
+  destruct (e <? X) eqn:Ee; [|apply IH; exact H].
+  apply IH. destruct (nth_error_split l _ En) as [l1 [l2 [El Hlen]]].
+  assert (Ef : firstn (S (Nat.div2 (lo + hi))) l = l1 ++ [e]).
+  { rewrite El. rewrite <- Hlen. rewrite firstn_app. rewrite firstn_all2 by lia.
+    replace (S (length l1) - length l1)%nat with 1%nat by lia. reflexivity. }
+  rewrite Ef. apply Forall_app. split.
+  - rewrite El in Hs. pose proof (sorted_app_le _ _ _ Hs) as Hle. apply (Forall_impl _ (P := fun y => y <= e)); [intros y Hy; lia|exact Hle].
+  - constructor; [lia|constructor].
+Qed.
+
+Lemma bisect_left_prefix : forall X l, StronglySorted Z.le l ->
+  Forall (fun y => y < X) (firstn (bisect_left (fun x => x <? X) l) l).
+Proof. intros X l Hs. unfold bisect_left. apply bisect_go_prefix; [exact Hs|constructor]. Qed.
+
+Lemma sorted_skipn {A} (R : A -> A -> Prop) : forall n l, StronglySorted R l -> StronglySorted R (skipn n l).
+Proof.
+  induction n as [|n IH]; intros l H; [exact H|]. destruct l as [|x r]; [exact H|]. cbn [skipn]. apply IH.
+  inversion H; assumption.
+Qed.
+
+Lemma sorted_weaken {A} (R R' : A -> A -> Prop) (HR : forall a b, R a b -> R' a b) :
+  forall l, StronglySorted R l -> StronglySorted R' l.
+Proof.
+  induction l as [|x r IH]; intros H; [constructor|]. inversion H as [|? ? H1 H2]; subst. constructor; [apply IH; exact H1|].
+  apply (Forall_impl _ (HR x)). exact H2.
+Qed.
+
+Lemma sorted_map {A} (f : A -> Z) : forall l, StronglySorted (fun a b => f a <= f b) l -> StronglySorted Z.le (map f l).
+Proof.
+  induction l as [|x r IH]; intros H; [constructor|]. inversion H as [|? ? H1 H2]; subst. cbn [map]. constructor; [apply IH; exact H1|].
+  apply Forall_map. exact H2.
+Qed.
+
+Lemma ndg_filter : forall (f : proto -> bool) l, P5.ndg l -> P5.ndg (filter f l).
+Proof.
+  intros f. unfold P5.ndg. induction l as [|x r IH]; intros H; [constructor|]. cbn [map] in H. inversion H as [|? ? H1 H2]; subst.
+  cbn [filter]. destruct (f x); [|exact (IH H2)]. cbn [map]. constructor; [|exact (IH H2)].
+  intro Hin. apply H1. apply in_map_iff in Hin. destruct Hin as [y [Ey Hy]]. apply filter_In in Hy. rewrite <- Ey. apply in_map. exact (proj1 Hy).
+Qed.
+
+Lemma first_occ_filter : forall l seen, P5.ndg l -> first_occ seen l = filter (fun c => negb (pmem c seen)) l.
+Proof.
+  induction l as [|c r IH]; intros seen H; [reflexivity|]. unfold P5.ndg in H. cbn [map] in H. inversion H as [|? ? H1 H2]; subst.
+  cbn [first_occ filter]. destruct (pmem c seen) eqn:E; cbn [negb]; [apply IH; exact H2|].
+  f_equal. rewrite (IH (c :: seen) H2). apply filter_ext_in. intros x Hx. unfold pmem. cbn [existsb].
+  destruct (pid c =? pid x) eqn:Ex; [|reflexivity]. exfalso. apply H1. apply Z.eqb_eq in Ex. rewrite Ex. apply in_map. exact Hx.
+Qed.
+
+Lemma mapM_rel {A B} (R : B -> B -> Prop) (f g : A -> res B) : forall l,
+  (forall x, In x l -> match f x, g x with Ok a, Ok b => R a b | Err j, Err k => j = k | _, _ => False end) ->
+  match mapM f l, mapM g l with Ok a, Ok b => Forall2 R a b | Err j, Err k => j = k | _, _ => False end.
+Proof.
+  induction l as [|x r IH]; intros H; cbn [mapM]; [constructor|].
+  pose proof (H x (or_introl eq_refl)) as Hx. destruct (f x) as [a|j]; destruct (g x) as [b|k]; cbn [bind]; try contradiction; [|exact Hx].
+  assert (Hr : forall y, In y r -> match f y, g y with Ok a, Ok b => R a b | Err j, Err k => j = k | _, _ => False end)
+    by (intros y Hy; apply H; right; exact Hy).
+  specialize (IH Hr). destruct (mapM f r) as [as_|j]; destruct (mapM g r) as [bs|k]; cbn [bind]; try contradiction; [|exact IH].
+  constructor; assumption.
+Qed.
+
+Lemma concat_perm2 : forall (a b : list (list proto)), Forall2 (fun x y => Permutation x y /\ True) a b -> Permutation (concat a) (concat b).
+Proof.
+  intros a b H. induction H as [|x y a b [Hxy _] H IH]; cbn [concat]; [apply Permutation_refl|]. apply Permutation_app; assumption.
+Qed.
+
+(* ---------- the scan of _find_hybrids selects by containment ---------- *)
+Definition cstart (c : proto) : Z := lstart (pcore c).
+Definition in_core (h : part) (c : proto) : bool := contains [h] (pcore c).
+
+Lemma proper2_core : forall c, proper2 c -> exists q, pcore c = [q] /\ ps q < pe q /\ lstart (ploc c) <= ps q /\
+  cstart c = ps q /\ fstart (pcore c) = ps q /\ in_core = in_core /\
+  forall h, in_core h c = (ps h <=? ps q) && (ps q <=? pe q) && (pe q <=? pe h).
+Proof.
+  intros c [_ [q [Hq [H1 H2]]]]. exists q. split; [exact Hq|]. split; [exact H1|]. split; [exact H2|].
+  unfold cstart, in_core. rewrite Hq. split; [reflexivity|]. split.
+  - unfold fstart. cbn [lstrand forallb last_opt]. destruct (pst q =? -1); reflexivity.
+  - split; [reflexivity|]. intros h. unfold contains. cbn [forallb existsb]. unfold part_contains.
+    rewrite orb_false_r, andb_true_r. reflexivity.
+Qed.
+
+Lemma scan_all : forall h l, StronglySorted (fun a b => cstart a <= cstart b) l -> Forall proper2 l ->
+  contained_until [h] (pe h) l = filter (in_core h) l.
+Proof.
+  intros h. induction l as [|a r IH]; intros Hs Hp; cbn [contained_until filter]; [reflexivity|].
+  inversion Hs as [|? ? Hs1 Hs2]; subst. inversion Hp as [|? ? Hp1 Hp2]; subst.
+  destruct (pe h <? lstart (ploc a)) eqn:E.
+  - symmetry. fold (in_core h a). change (filter (in_core h) (a :: r) = []). apply filter_none.
+    assert (Ha : forall d, proper2 d -> cstart a <= cstart d -> in_core h d = false).
+    { intros d Hd Hle. destruct (proper2_core a Hp1) as [qa [_ [_ [Hla [Hca _]]]]].
+      destruct (proper2_core d Hd) as [qd [_ [Hlt [_ [Hcd [_ [_ Hin]]]]]]]. rewrite Hin. lia. }
+    constructor; [apply Ha; [exact Hp1|lia]|].
+    rewrite Forall_forall in *. intros d Hd. apply Ha; [apply Hp2; exact Hd|apply Hs2; exact Hd].
+  - fold (in_core h a). destruct (in_core h a); [f_equal|]; apply IH; assumption.
+Qed.
+
+Lemma scan_is_filter : forall h l, wsorted core_start_lt l -> Forall proper2 l ->
+  contained_until [h] (lend [h])
+    (skipn (Z.to_nat (Z.max 0 (Z.of_nat (bisect_left (fun x => x <? lstart [h]) (map (fun c => fstart (pcore c)) l)) - 1))) l)
+  = filter (in_core h) l.
+Proof.
+  intros h l Hw Hp.
+  assert (Hs : StronglySorted (fun a b => cstart a <= cstart b) l).
+  { apply (sorted_weaken (fun a b => core_start_lt b a = false)); [|exact Hw].
+    intros a b. unfold core_start_lt, cstart. lia. }
+  set (bl := bisect_left (fun x => x <? lstart [h]) (map (fun c => fstart (pcore c)) l)).
+  set (idx := Z.to_nat (Z.max 0 (Z.of_nat bl - 1))).
+  change (lend [h]) with (pe h). change (lstart [h]) with (ps h) in bl.
+  rewrite scan_all; [|apply sorted_skipn; exact Hs|].
+  2:{ rewrite <- (firstn_skipn idx l) in Hp. apply Forall_app in Hp. exact (proj2 Hp). }
+  rewrite <- (firstn_skipn idx l) at 2. rewrite filter_app.
+  rewrite (filter_none (in_core h) (firstn idx l)); [reflexivity|].
+  (* the skipped prefix: core starts before the joint core *)
+  assert (Hmap : map (fun c => fstart (pcore c)) l = map cstart l).
+  { apply map_ext_in. intros c Hc. rewrite Forall_forall in Hp. destruct (proper2_core c (Hp c Hc)) as [q [_ [_ [_ [H1 [H2 _]]]]]]. lia. }
+  assert (Hpre : Forall (fun y => y < ps h) (firstn bl (map cstart l))).
+  { unfold bl. rewrite Hmap. apply bisect_left_prefix. apply sorted_map. exact Hs. }
+  assert (Hidx : Forall (fun y => y < ps h) (firstn idx (map cstart l))).
+  { assert (E : firstn idx (map cstart l) = firstn idx (firstn bl (map cstart l))).
+    { rewrite firstn_firstn. f_equal. unfold idx. lia. }
+    rewrite E. apply Forall_firstn. exact Hpre. }
+  rewrite firstn_map in Hidx. rewrite Forall_map in Hidx.
+  apply Forall_forall. intros c Hc. rewrite Forall_forall in Hidx, Hp.
+  pose proof (Hidx c Hc) as Hlt.
+  assert (HcP : proper2 c). { apply Hp. rewrite <- (firstn_skipn idx l). apply in_or_app. left. exact Hc. }
+  destruct (proper2_core c HcP) as [q [_ [_ [_ [Hcq [_ [_ Hin]]]]]]]. rewrite Hin. lia.
+Qed.
+
+Lemma pmem_perm : forall x l l', Permutation l l' -> pmem x l = pmem x l'.
+Proof.
+  intros x l l' H. unfold pmem. induction H as [|a l l' H IH|a b l|l l' l'' H1 IH1 H2 IH2]; cbn [existsb].
+  - reflexivity.
+  - rewrite IH. reflexivity.
+  - destruct (pid b =? pid x), (pid a =? pid x); reflexivity.
+  - rewrite IH1. exact IH2.
+Qed.
+
+Lemma diff_perm_r : forall a b b', Permutation b b' -> diff a b = diff a b'.
+Proof. intros a b b' H. unfold diff. apply filter_ext. intros x. rewrite (pmem_perm x b b' H). reflexivity. Qed.
+
+Lemma is_empty_perm : forall (l l' : list proto), Permutation l l' -> is_empty l = is_empty l'.
+Proof.
+  intros l l' H. destruct l as [|x l0]; destruct l' as [|y l0']; try reflexivity.
+  - apply Permutation_nil in H. discriminate H.
+  - apply Permutation_sym in H. apply Permutation_nil in H. discriminate H.
+Qed.
+
+Lemma inS_perm : forall i l l', Permutation l l' -> (P5.inS i l <-> P5.inS i l').
+Proof.
+  intros i l l' H. unfold P5.inS. split; apply Permutation_in; apply Permutation_map; [exact H|apply Permutation_sym; exact H].
+Qed.
+
+Lemma inS_set_add : forall i x l, P5.inS i (set_add x l) <-> i = pid x \/ P5.inS i l.
+Proof.
+  intros i x l. unfold set_add. destruct (pmem x l) eqn:E.
+  - apply P5.pmem_inS in E. split; [intro H; right; exact H|intros [H|H]; [subst i; exact E|exact H]].
+  - unfold P5.inS. rewrite map_app, in_app_iff. cbn [map In]. split.
+    + intros [H|[H|[]]]; [right; exact H|left; symmetry; exact H].
+    + intros [H|H]; [right; left; symmetry; exact H|left; exact H].
+Qed.
+
+Lemma inS_fold_set_add : forall i l acc,
+  P5.inS i (fold_left (fun s x => set_add x s) l acc) <-> P5.inS i acc \/ P5.inS i l.
+Proof.
+  intros i. induction l as [|x xs IH]; intros acc; cbn [fold_left].
+  - unfold P5.inS at 3. cbn. tauto.
+  - rewrite IH, inS_set_add. unfold P5.inS at 4. cbn [map In]. split.
+    + intros [[H|H]|H]; [right; left; symmetry; exact H|left; exact H|right; right; exact H].
+    + intros [H|[H|H]]; [left; right; exact H|left; left; symmetry; exact H|right; exact H].
+Qed.
+
+Lemma asc_wsorted : forall l, P5.asc (map pid l) -> wsorted (fun a b => pid a <? pid b) l.
+Proof.
+  induction l as [|x r IH]; intros H; [constructor|]. cbn [map P5.asc] in H. destruct H as [H1 H2].
+  constructor; [apply IH; exact H2|]. apply Forall_forall. intros y Hy.
+  specialize (H1 (pid y) (in_map pid _ _ Hy)). lia.
+Qed.
+
+Section Formation.
+Variable P : list proto.
+Hypothesis HS : Forall simple P.
+Hypothesis HN : NoDup (map pid P).
+Hypothesis HG : forall a b, In a P -> In b P -> pkey a = pkey b -> prekey a = prekey b -> a = b.
+Variable en : enum.
+Hypothesis Hen : enumerator en.
+Hypothesis Hneutral : tie_neutral P en.
+Variable w : option Z.
+Hypothesis Hlin : linear_or_neutral P w en.
+
+Lemma In_iter_back : forall s x, incl s P -> In x s -> In x (iter s).
+Proof.
+  intros s x Hs Hx. assert (Hi : P5.inS (pid x) (iter s)) by (apply P5.inS_iter; apply in_map; exact Hx).
+  unfold P5.inS in Hi. apply in_map_iff in Hi. destruct Hi as [y [Hy Hyin]].
+  rewrite <- (P5.NoDup_map_inj P y x HN (Hs y (P5.In_iter _ _ Hyin)) (Hs x Hx) Hy). exact Hyin.
+Qed.
+
+(* two lists with the same ids denote the same set: same iteration in ascending id *)
+Lemma iter_ext : forall s s', incl s P -> incl s' P -> (forall i, P5.inS i s <-> P5.inS i s') -> iter s = iter s'.
+Proof.
+  intros s s' Hs Hs' Hi.
+  assert (Hmem : forall a b, incl a P -> incl b P -> (forall i, P5.inS i a -> P5.inS i b) ->
+                 forall x, In x (iter a) -> In x (iter b)).
+  { intros a b Ha Hb Hab x Hx. pose proof (P5.In_iter _ _ Hx) as Hxa.
+    assert (H1 : P5.inS (pid x) b) by (apply Hab; apply in_map; exact Hxa).
+    unfold P5.inS in H1. apply in_map_iff in H1. destruct H1 as [y [Hy Hyb]].
+    rewrite <- (P5.NoDup_map_inj P y x HN (Hb y Hyb) (Ha x Hxa) Hy). apply In_iter_back; assumption. }
+  apply (wsorted_unique (fun a b => pid a <? pid b)).
+  - apply asc_wsorted. apply P5.asc_iter.
+  - apply asc_wsorted. apply P5.asc_iter.
+  - apply NoDup_Permutation.
+    + apply (NoDup_map_inv pid). apply P5.asc_NoDup. apply P5.asc_iter.
+    + apply (NoDup_map_inv pid). apply P5.asc_NoDup. apply P5.asc_iter.
+    + intros x. split; [apply (Hmem s s' Hs Hs'); intros i; apply Hi|apply (Hmem s' s Hs' Hs); intros i; apply Hi].
+  - intros a b Ia Ib H1 H2. apply (P5.NoDup_map_inj P a b HN); [apply Hs; apply P5.In_iter; exact Ia|apply Hs; apply P5.In_iter; exact Ib|lia].
+Qed.
+
+Lemma simple_incl : forall g, incl g P -> Forall simple g.
+Proof. intros g Hg. apply Forall_forall. intros x Hx. rewrite Forall_forall in HS. apply HS. apply Hg. exact Hx. Qed.
+
+Lemma ordered_perm_P : forall g g', incl g P -> Permutation g g' -> ordered_list g = ordered_list g'.
+Proof.
+  intros g g' Hg Hp. apply ordered_perm_proof; [apply simple_incl; exact Hg|exact Hp|].
+  intros a b Ia Ib. apply HG; apply Hg; assumption.
+Qed.
+
+(* sites 3, 4, 6: _ordered(a set) *)
+Lemma ordered_set_en : forall k s, incl (ordered_set s) P -> ordered_set_o en k s = ordered_set s.
+Proof.
+  intros k s Hs. unfold ordered_set_o, ordered_set. symmetry. apply ordered_perm_P.
+  - intros x Hx. apply Hs. unfold ordered_set. apply P5.In_ordered_list. exact Hx.
+  - apply Permutation_sym. apply Hen.
+Qed.
+
+Lemma merge_sets_en : forall G, P5.allin P (merge_sets G) -> merge_sets_o en G = merge_sets G.
+Proof.
+  intros G H. unfold merge_sets_o, merge_sets. apply map_ext_in. intros h Hh. apply ordered_set_en.
+  intros x Hx. apply (H (ordered_set h) x); [apply in_map; exact Hh|exact Hx].
+Qed.
+
+(* sites 1, 2: build_candidates; the extra singles are the same SET *)
+Definition rel_bs (r' r : res (table * list proto)) : Prop :=
+  match r', r with
+  | Ok (e', s'), Ok (e, s) => e' = e /\ incl s' P /\ incl s P /\ (forall i, P5.inS i s' <-> P5.inS i s)
+  | Err k', Err k => k' = k
+  | _, _ => False
+  end.
+
+Lemma build_go_en : forall kind groups existing singles' singles,
+  P5.allin P groups -> (forall c, In c (tvalues existing) -> P5.good P w c) ->
+  incl singles' P -> incl singles P -> (forall i, P5.inS i singles' <-> P5.inS i singles) ->
+  rel_bs (build_go_o en w kind groups existing singles') (build_go w kind groups existing singles).
+Proof.
+  intros kind. induction groups as [|group rest IH]; intros existing singles' singles HGr HE HS' HS0 Hi; cbn [build_go_o build_go].
+  - cbn. repeat split; try assumption; apply Hi.
+  - destruct (negb ((kind =? K_SINGLE) || (1 <? zlen group))); [reflexivity|].
+    assert (HGrest : P5.allin P rest) by (intros g x Hg Hx; exact (HGr g x (or_intror Hg) Hx)).
+    assert (Hgroup : incl group P) by (intros x Hx; exact (HGr group x (or_introl eq_refl) Hx)).
+    destruct (mk_cand w kind (ordered_list group)) as [candidate|k] eqn:Ec; cbn [bind]; [|reflexivity].
+    assert (Hcand : P5.good P w candidate).
+    { destruct (P5.mk_cand_wfc _ _ _ _ Ec) as [A [B _]]. split; [exact A|]. rewrite B. intros x Hx.
+      apply Hgroup. apply P5.In_ordered_list. exact Hx. }
+    destruct (tget (ckey candidate) existing) as [ex|] eqn:Et.
+    + pose proof (HE ex (P5.tget_in _ _ _ Et)) as Hex.
+      assert (Hec : Permutation (en 1 (cmem ex)) (iter (cmem ex))) by apply Hen.
+      rewrite (diff_perm_r group _ _ Hec).
+      set (D := diff group (iter (cmem ex))).
+      assert (Hex2 : Permutation (en 2 D) (iter D)) by apply Hen.
+      assert (HD : incl (iter D) P).
+      { intros x Hx. apply P5.In_iter in Hx. apply P5.In_diff in Hx. exact (Hgroup x Hx). }
+      rewrite (is_empty_perm _ _ Hex2).
+      destruct (is_empty (iter D)) eqn:Eex.
+      * apply IH; assumption.
+      * assert (Eo : ordered_list (en 1 (cmem ex) ++ en 2 D) = ordered_list (iter (cmem ex) ++ iter D)).
+        { symmetry. apply ordered_perm_P.
+          - intros x Hx. apply in_app_or in Hx. destruct Hx as [Hx|Hx]; [|exact (HD x Hx)].
+            apply P5.In_iter in Hx. exact (proj2 Hex x Hx).
+          - apply Permutation_sym. apply Permutation_app; assumption. }
+        rewrite Eo.
+        destruct (mk_cand w (ckind ex) (ordered_list (iter (cmem ex) ++ iter D))) as [replacement|k] eqn:Er; cbn [bind]; [|reflexivity].
+        apply IH.
+        -- exact HGrest.
+        -- intros c Hc. apply P5.tset_values in Hc. destruct Hc as [Hc|Hc]; [|exact (HE c Hc)]. subst c.
+           destruct (P5.mk_cand_wfc _ _ _ _ Er) as [A [B _]]. split; [exact A|]. rewrite B. intros x Hx.
+           apply (proj1 (P5.In_ordered_list _ _)) in Hx. apply in_app_or in Hx. destruct Hx as [Hx|Hx]; [|exact (HD x Hx)].
+           apply P5.In_iter in Hx. exact (proj2 Hex x Hx).
+        -- intros x Hx. apply P5.In_fold_set_add' in Hx. destruct Hx as [Hx|Hx]; [exact (HS' x Hx)|].
+           apply HD. apply (Permutation_in _ Hex2). exact Hx.
+        -- intros x Hx. apply P5.In_fold_set_add' in Hx. destruct Hx as [Hx|Hx]; [exact (HS0 x Hx)|exact (HD x Hx)].
+        -- intros i. rewrite !inS_fold_set_add. rewrite (inS_perm i _ _ Hex2). rewrite (Hi i). tauto.
+    + apply IH; try assumption.
+      intros c Hc. apply P5.tset_values in Hc. destruct Hc as [Hc|Hc]; [subst c; exact Hcand|exact (HE c Hc)].
+Qed.
+
+Definition rel_bc (r' r : res (list cand * table * list proto)) : Prop :=
+  match r', r with
+  | Ok (c', e', s'), Ok (c, e, s) => c' = c /\ e' = e /\ incl s' P /\ incl s P /\ (forall i, P5.inS i s' <-> P5.inS i s)
+  | Err k', Err k => k' = k
+  | _, _ => False
+  end.
+
+Lemma build_candidates_en : forall kind groups existing singles' singles,
+  P5.allin P groups -> (forall c, In c (tvalues existing) -> P5.good P w c) ->
+  incl singles' P -> incl singles P -> (forall i, P5.inS i singles' <-> P5.inS i singles) ->
+  rel_bc (build_candidates_o en w kind groups existing singles') (build_candidates w kind groups existing singles).
+Proof.
+  intros kind groups existing singles' singles H1 H2 H3 H4 H5.
+  pose proof (build_go_en kind groups existing singles' singles H1 H2 H3 H4 H5) as R.
+  unfold build_candidates_o, build_candidates, rel_bs in *.
+  destruct (build_go_o en w kind groups existing singles') as [[e' s']|k']; destruct (build_go w kind groups existing singles) as [[e s]|k];
+    cbn [bind]; try contradiction.
+  - destruct R as [-> [A [B C]]]. cbn. repeat split; try assumption; apply C.
+  - exact R.
+Qed.
+
+(* one call of hybrid_extend on a linear record: the scan over the unassigned protoclusters sorted by core start
+   selects exactly those whose core lies inside the joint core, whatever the arrangement of equal core starts *)
+Lemma hybrid_extend_en : forall g bc' bc, Forall proper2 P -> incl g P -> incl bc P ->
+  wsorted core_start_lt bc' -> wsorted core_start_lt bc -> Permutation bc' bc -> P5.ndg bc ->
+  match hybrid_extend None bc' g, hybrid_extend None bc g with
+  | Ok a, Ok b => (Permutation a b /\ True) /\ incl b P
+  | Err j, Err k => j = k
+  | _, _ => False
+  end.
+Proof.
+  intros g bc' bc Hpr Hg Hbc Hw' Hw0 Hperm Hnd. unfold hybrid_extend.
+  destruct g as [|g0 gr]; [cbn; reflexivity|].
+  set (g := g0 :: gr) in *.
+  rewrite Forall_forall in Hpr.
+  set (locs := map pcore g).
+  assert (Hsimple : ASV.C04.Proofs.simple_locs locs).
+  { apply Forall_forall. intros l Hl. unfold locs in Hl. apply in_map_iff in Hl. destruct Hl as [p [He Hp]]. subst l.
+    destruct (Hpr p (Hg p Hp)) as [_ [q [Hq _]]]. exists q. exact Hq. }
+  assert (Hwf : Forall ASV.C04.Proofs.wf_loc locs).
+  { apply Forall_forall. intros l Hl. unfold locs in Hl. apply in_map_iff in Hl. destruct Hl as [p [He Hp]]. subst l.
+    destruct (Hpr p (Hg p Hp)) as [_ [q [Hq [Hlt _]]]]. rewrite Hq. split; [discriminate|]. constructor; [exact Hlt|constructor]. }
+  assert (Hlne : locs <> []) by (unfold locs, g; discriminate).
+  destruct (ASV.C04.Proofs.connect_line_simple locs Hlne Hsimple Hwf) as [h [Hh _]].
+  rewrite Hh. cbn [bind is_compound]. rewrite !app_nil_r.
+  assert (Hbc' : incl bc' P) by (intros x Hx; apply Hbc; apply (Permutation_in _ Hperm); exact Hx).
+  rewrite (scan_is_filter h bc' Hw'), (scan_is_filter h bc Hw0);
+    [|apply Forall_forall; intros x Hx; apply Hpr; apply Hbc; exact Hx|apply Forall_forall; intros x Hx; apply Hpr; apply Hbc'; exact Hx].
+  rewrite !first_occ_filter; [|apply ndg_filter; exact Hnd|apply ndg_filter; apply (P5.ndg_perm bc bc'); [apply Permutation_sym; exact Hperm|exact Hnd]].
+  split; [split; [|exact I]|].
+  - apply Permutation_app_head. apply filter_perm. apply filter_perm. exact Hperm.
+  - intros x Hx. apply in_app_or in Hx. destruct Hx as [Hx|Hx]; [exact (Hg x Hx)|].
+    apply filter_In in Hx. destruct Hx as [Hx _]. apply filter_In in Hx. destruct Hx as [Hx _]. exact (Hbc x Hx).
+Qed.
+
+(* site 5 (linear record: any order; otherwise by hypothesis), sites 4, 6 *)
+Lemma find_hybrids_en : forall clusters, incl clusters P ->
+  find_hybrids_o en clusters w = find_hybrids clusters w.
+Proof.
+  intros clusters HC. unfold find_hybrids_o, find_hybrids. cbv zeta.
+  set (prs := pairs_rel defs_intersect (sort_by core_key_lt clusters) ++
+              match first_last (sort_by core_key_lt clusters) with
+              | Some (f, l) => if negb (pid f =? pid l) && defs_intersect f l then [(f, l)] else []
+              | None => []
+              end).
+  set (groups := map (fun xy : proto * proto => [fst xy; snd xy]) prs).
+  assert (HA : P5.allin P groups).
+  { apply P5.pair_groups_allin. intros a b Hab. unfold prs in Hab. apply in_app_or in Hab. destruct Hab as [Hab|Hab].
+    - apply P5.pairs_rel_In in Hab. destruct Hab as [Ha [Hb _]]. apply P5.sort_by_in in Ha. apply P5.sort_by_in in Hb.
+      split; apply HC; assumption.
+    - destruct (first_last (sort_by core_key_lt clusters)) as [[f l]|] eqn:Efl; [|destruct Hab].
+      destruct (negb (pid f =? pid l) && defs_intersect f l); [|destruct Hab].
+      destruct Hab as [Hab|[]]. inversion Hab; subst. apply P5.first_last_In in Efl. destruct Efl as [Ha Hb].
+      apply P5.sort_by_in in Ha. apply P5.sort_by_in in Hb. split; apply HC; assumption. }
+  pose proof (P5.merge_sets_allin P groups HA) as HM.
+  rewrite (merge_sets_en groups HM).
+  set (un := diff clusters (concat groups)).
+  assert (HU : incl un P) by (intros x Hx; apply HC; apply P5.In_diff in Hx; exact Hx).
+  assert (Hfin : forall ext, incl (ordered_set (diff un (concat ext))) P).
+  { intros ext x Hx. apply P5.In_ordered_set in Hx. apply P5.In_diff in Hx. exact (HU x Hx). }
+  destruct Hlin as [[Hw Hpr]|[H5 _]].
+  - subst w.
+    set (bc' := sort_by core_start_lt (en 5 un)). set (bc := sort_by core_start_lt (iter un)).
+    assert (Hirr : forall a, core_start_lt a a = false) by (intros a; unfold core_start_lt; lia).
+    assert (Htr : forall a b c, core_start_lt a b = true -> core_start_lt b c = true -> core_start_lt a c = true)
+      by (intros a b c; unfold core_start_lt; lia).
+    assert (Hperm : Permutation bc' bc).
+    { unfold bc', bc. apply Permutation_trans with (en 5 un); [apply sort_by_perm|].
+      apply Permutation_trans with (iter un); [apply Hen|apply Permutation_sym; apply sort_by_perm]. }
+    assert (Hbc : incl bc P).
+    { intros x Hx. unfold bc in Hx. apply P5.sort_by_in in Hx. apply P5.In_iter in Hx. exact (HU x Hx). }
+    pose proof (mapM_rel (fun a b => (Permutation a b /\ True) /\ incl b P) (hybrid_extend None bc') (hybrid_extend None bc) (merge_sets groups)) as HR.
+    match type of HR with ?A -> _ => assert (HRa : A) end.
+    { intros g Hg. apply hybrid_extend_en; try assumption.
+      - intros x Hx. exact (HM g x Hg Hx).
+      - apply sort_by_wsorted; assumption.
+      - apply sort_by_wsorted; assumption.
+      - unfold bc. apply P5.ndg_sort_by. apply P5.ndg_iter. }
+    specialize (HR HRa).
+    destruct (mapM (hybrid_extend None bc') (merge_sets groups)) as [ext'|j]; destruct (mapM (hybrid_extend None bc) (merge_sets groups)) as [ext|k];
+      cbn [bind]; try contradiction; [|rewrite HR; reflexivity].
+    assert (E1 : map ordered_list ext' = map ordered_list ext).
+    { clear -HR HS HG. induction HR as [|a b ra rb [[Hab _] Hb] HR IH]; [reflexivity|]. cbn [map]. f_equal; [|exact IH].
+      symmetry. apply (ordered_perm_P b a Hb). apply Permutation_sym. exact Hab. }
+    assert (E2 : diff un (concat ext') = diff un (concat ext)).
+    { apply diff_perm_r. apply concat_perm2. clear -HR. induction HR as [|a b ra rb [Hab _] HR IH]; constructor; assumption. }
+    rewrite E1, E2. f_equal. f_equal. apply ordered_set_en. apply Hfin.
+  - rewrite (H5 _ HU).
+    destruct (mapM (hybrid_extend w (sort_by core_start_lt (iter un))) (merge_sets groups)) as [extended|k];
+      cbn [bind]; [|reflexivity].
+    f_equal. f_equal. apply ordered_set_en. apply Hfin.
+Qed.
+
+(* site 7 (by hypothesis), site 4 *)
+Lemma find_interleaved_en : forall clusters cands, incl clusters P -> (forall c, In c cands -> incl (cmem c) P) ->
+  find_interleaved_o en clusters cands w = find_interleaved clusters cands w.
+Proof.
+  intros clusters cands HC HK.
+  pose proof (P5.find_interleaved_allin P clusters cands w) as HA.
+  unfold find_interleaved_o. unfold find_interleaved in *. cbv zeta in *.
+  destruct (with_cores w cands) as [cc|k]; cbn [bind] in *; [|reflexivity].
+  match goal with |- context [find_cross_origin_interleaved ?a ?b ?c ?d] => destruct (find_cross_origin_interleaved a b c d) as [[found3 groups3]|k] end;
+    cbn [bind] in *; [|reflexivity].
+  destruct (HA _ _ eq_refl HC HK) as [HA1 _].
+  rewrite (merge_sets_en _ HA1).
+  f_equal. f_equal. apply (proj1 Hneutral).
+  intros x Hx. apply HC. apply P5.In_diff in Hx. exact Hx.
+Qed.
+
+(* a candidate of a linear record never crosses the origin *)
+Lemma good_not_bridging : forall c, Forall proper P -> P5.good P None c -> bridges (cloc c) = false.
+Proof.
+  intros c Hpr [[Hne Hcon] Hin]. rewrite Forall_forall in Hpr.
+  set (locs := map ploc (cmem c)) in *.
+  assert (Hsimple : ASV.C04.Proofs.simple_locs locs).
+  { unfold ASV.C04.Proofs.simple_locs. apply Forall_forall. intros l Hl. unfold locs in Hl. apply in_map_iff in Hl.
+    destruct Hl as [p [He Hp]]. subst l. destruct (Hpr p (Hin p Hp)) as [q [Hq _]]. exists q. exact Hq. }
+  assert (Hwf : Forall ASV.C04.Proofs.wf_loc locs).
+  { apply Forall_forall. intros l Hl. unfold locs in Hl. apply in_map_iff in Hl.
+    destruct Hl as [p [He Hp]]. subst l. destruct (Hpr p (Hin p Hp)) as [q [Hq Hlt]]. rewrite Hq.
+    split; [discriminate|]. constructor; [exact Hlt|constructor]. }
+  assert (Hlne : locs <> []).
+  { unfold locs. destruct (cmem c); [exfalso; apply Hne; reflexivity|discriminate]. }
+  destruct (ASV.C04.Proofs.connect_line_simple locs Hlne Hsimple Hwf) as [h [Hh _]].
+  rewrite Hcon in Hh. inversion Hh as [Hcl]. rewrite Hcl. reflexivity.
+Qed.
+
+(* site 8 (never reached on linear records / by hypothesis), site 9 (by hypothesis), site 4 *)
+Lemma find_neighbouring_en : forall singles cands, incl singles P -> (forall c, In c cands -> P5.good P w c) ->
+  find_neighbouring_o en singles cands = find_neighbouring singles cands.
+Proof.
+  intros singles cands HSi HK0.
+  assert (HK : forall c, In c cands -> incl (cmem c) P) by (intros c Hc; exact (proj2 (HK0 c Hc))).
+  pose proof (P5.find_neighbouring_allin P singles cands HSi HK) as HA.
+  unfold find_neighbouring_o. unfold find_neighbouring in *. cbv zeta in *.
+  match goal with |- context [diff singles ?m] => set (un := diff singles m) in * end.
+  assert (HU : incl un P) by (intros x Hx; apply HSi; apply P5.In_diff in Hx; exact Hx).
+  rewrite (proj2 Hneutral un HU).
+  destruct Hlin as [[Hw Hpr2]|[_ H8]].
+  - assert (Hpr : Forall proper P) by (apply (Forall_impl _ (P := proper2)); [intros a Ha; exact (proj1 Ha)|exact Hpr2]).
+    assert (Hb : forall c, In c cands -> bridges (cloc c) = false).
+    { intros c Hc. apply good_not_bridging; [exact Hpr|]. rewrite <- Hw. apply HK0. exact Hc. }
+    match goal with |- context [flat_map ?f ?e] =>
+      match e with context [bridges] => assert (He : e = []) end end.
+    { destruct (is_empty un || is_empty cands); [reflexivity|].
+      destruct cands as [|c0 [|c1 r]]; [reflexivity| |].
+      - rewrite (Hb c0 (or_introl eq_refl)). reflexivity.
+      - rewrite (Hb c0 (or_introl eq_refl)). destruct (last_opt (c0 :: c1 :: r)) as [cl|] eqn:El; [|reflexivity].
+        rewrite (Hb cl (P5.last_opt_In _ _ _ El)). reflexivity. }
+    rewrite He in *. cbn [flat_map] in *. apply merge_sets_en. exact HA.
+  - rewrite (H8 un HU). apply merge_sets_en. exact HA.
+Qed.
+
+Lemma formation_body_en : formation_body_o en P w = formation_body P w.
+Proof.
+  unfold formation_body_o, formation_body. cbv zeta.
+  assert (HP : incl (sort_by lt_pp P) P) by (intros x Hx; apply P5.sort_by_in in Hx; exact Hx).
+  rewrite (find_hybrids_en _ HP).
+  destruct (find_hybrids (sort_by lt_pp P) w) as [[hg un1]|k] eqn:E1; cbn [bind]; [|reflexivity].
+  destruct (P5.find_hybrids_allin _ _ _ _ E1) as [A1 B1].
+  assert (A1' : P5.allin P hg) by (intros g x Hg Hx; exact (HP x (A1 g x Hg Hx))).
+  assert (B1' : incl un1 P) by (intros x Hx; exact (HP x (B1 x Hx))).
+  assert (Hnil : forall c, In c (tvalues (@nil ((Z * Z) * cand))) -> P5.good P w c) by (intros c []).
+  assert (Hnil2 : incl (@nil proto) P) by (intros x []).
+  pose proof (build_candidates_en K_HYBRID hg [] [] [] A1' Hnil Hnil2 Hnil2 (fun i => iff_refl _)) as R1.
+  unfold rel_bc in R1.
+  destruct (build_candidates_o en w K_HYBRID hg [] []) as [[[c1' e1'] s1']|k1']; destruct (build_candidates w K_HYBRID hg [] []) as [[[c1 e1] s1]|k1] eqn:E2;
+    cbn [bind]; try contradiction; [|rewrite R1; reflexivity].
+  destruct R1 as [-> [-> [S1' [S1 I1]]]].
+  destruct (P5.build_candidates_good P _ _ _ _ _ _ _ _ E2 A1' Hnil Hnil2) as [G1 [T1 _]].
+  assert (K1 : forall c, In c c1 -> incl (cmem c) P) by (intros c Hc; exact (proj2 (G1 c Hc))).
+  rewrite (find_interleaved_en un1 c1 B1' K1).
+  destruct (find_interleaved un1 c1 w) as [[ig un2]|k] eqn:E3; cbn [bind]; [|reflexivity].
+  destruct (P5.find_interleaved_allin P _ _ _ _ _ E3 B1' K1) as [A3 B3].
+  assert (B3' : incl un2 P) by (intros x Hx; exact (B1' x (B3 x Hx))).
+  pose proof (build_candidates_en K_INTERLEAVED ig e1 s1' s1 A3 T1 S1' S1 I1) as R2.
+  unfold rel_bc in R2.
+  destruct (build_candidates_o en w K_INTERLEAVED ig e1 s1') as [[[c2' e2'] s2']|k2']; destruct (build_candidates w K_INTERLEAVED ig e1 s1) as [[[c2 e2] s2]|k2] eqn:E4;
+    cbn [bind]; try contradiction; [|rewrite R2; reflexivity].
+  destruct R2 as [-> [-> [S2' [S2 I2]]]].
+  destruct (P5.build_candidates_good P _ _ _ _ _ _ _ _ E4 A3 T1 S1) as [G2 [T2 _]].
+  assert (K2 : forall c, In c c2 -> incl (cmem c) P) by (intros c Hc; exact (proj2 (G2 c Hc))).
+  rewrite (find_neighbouring_en un2 c2 B3' G2).
+  assert (A5 : P5.allin P (find_neighbouring un2 c2)) by (apply P5.find_neighbouring_allin; assumption).
+  pose proof (build_candidates_en K_NEIGHBOURING (find_neighbouring un2 c2) e2 s2' s2 A5 T2 S2' S2 I2) as R3.
+  unfold rel_bc in R3.
+  destruct (build_candidates_o en w K_NEIGHBOURING (find_neighbouring un2 c2) e2 s2') as [[[c3' e3'] s3']|k3'];
+    destruct (build_candidates w K_NEIGHBOURING (find_neighbouring un2 c2) e2 s2) as [[[c3 e3] s3]|k3] eqn:E5;
+    cbn [bind]; try contradiction; [|rewrite R3; reflexivity].
+  destruct R3 as [-> [-> [S3' [S3 I3]]]].
+  assert (Eo : ordered_set_o en 3 (un2 ++ s3') = ordered_set (un2 ++ s3)).
+  { assert (Ei : iter (un2 ++ s3') = iter (un2 ++ s3)).
+    { apply iter_ext.
+      - intros x Hx. apply in_app_or in Hx. destruct Hx as [Hx|Hx]; [exact (B3' x Hx)|exact (S3' x Hx)].
+      - intros x Hx. apply in_app_or in Hx. destruct Hx as [Hx|Hx]; [exact (B3' x Hx)|exact (S3 x Hx)].
+      - intros i. unfold P5.inS. rewrite !map_app, !in_app_iff. fold (P5.inS i s3'). fold (P5.inS i s3). rewrite (I3 i). tauto. }
+    unfold ordered_set_o. unfold ordered_set. rewrite <- Ei. symmetry. apply ordered_perm_P.
+    - intros x Hx. apply P5.In_iter in Hx. apply in_app_or in Hx. destruct Hx as [Hx|Hx]; [exact (B3' x Hx)|exact (S3' x Hx)].
+    - apply Permutation_sym. apply Hen. }
+  rewrite Eo. reflexivity.
+Qed.
+
+End Formation.
+
+Lemma create_candidates_en : forall P, Forall simple P -> NoDup (map pid P) ->
+  (forall a b, In a P -> In b P -> pkey a = pkey b -> prekey a = prekey b -> a = b) ->
+  forall en, enumerator en -> tie_neutral P en -> forall w, linear_or_neutral P w en ->
+  create_candidates_o en P w = create_candidates P w.
+Proof.
+  intros P HS HN HG en Hen Hneu w Hedge. pose proof (formation_body_en P HS HN HG en Hen Hneu w Hedge) as E.
+  unfold create_candidates_o, create_candidates. destruct P as [|p ps]; [reflexivity|]. rewrite E. reflexivity.
+Qed.
+
+(* the model with explicit enumerators IS C05.Model.create_candidates (the one compared with the code on every run)
+   at the ascending-id enumeration - for every input, no guard *)
+Lemma build_go_o_asc : forall w kind groups existing singles,
+  build_go_o en_asc w kind groups existing singles = build_go w kind groups existing singles.
+Proof.
+  intros w kind. induction groups as [|group rest IH]; intros existing singles; cbn [build_go_o build_go]; [reflexivity|].
+  destruct (negb ((kind =? K_SINGLE) || (1 <? zlen group))); [reflexivity|].
+  destruct (mk_cand w kind (ordered_list group)) as [candidate|k]; cbn [bind]; [|reflexivity].
+  destruct (tget (ckey candidate) existing) as [ex|]; [|apply IH].
+  unfold en_asc. destruct (is_empty (iter (diff group (iter (cmem ex))))); [apply IH|].
+  destruct (mk_cand w (ckind ex) (ordered_list (iter (cmem ex) ++ iter (diff group (iter (cmem ex)))))); cbn [bind]; [apply IH|reflexivity].
+Qed.
+
+Lemma build_candidates_o_asc : forall w kind groups existing singles,
+  build_candidates_o en_asc w kind groups existing singles = build_candidates w kind groups existing singles.
+Proof. intros. unfold build_candidates_o, build_candidates. rewrite build_go_o_asc. reflexivity. Qed.
+
+Lemma formation_o_iter_proof : forall protos w, create_candidates_o en_asc protos w = create_candidates protos w.
+Proof.
+  intros protos w. unfold create_candidates_o, create_candidates. destruct protos as [|p0 ps0]; [reflexivity|].
+  set (P := p0 :: ps0).
+  assert (E : formation_body_o en_asc P w = formation_body P w); [|rewrite E; reflexivity].
+  unfold formation_body_o, formation_body. cbv zeta.
+  change (find_hybrids_o en_asc (sort_by lt_pp P) w) with (find_hybrids (sort_by lt_pp P) w).
+  destruct (find_hybrids (sort_by lt_pp P) w) as [[hg un1]|k]; cbn [bind]; [|reflexivity].
+  rewrite build_candidates_o_asc.
+  destruct (build_candidates w K_HYBRID hg [] []) as [[[c1 e1] s1]|k]; cbn [bind]; [|reflexivity].
+  change (find_interleaved_o en_asc un1 c1 w) with (find_interleaved un1 c1 w).
+  destruct (find_interleaved un1 c1 w) as [[ig un2]|k]; cbn [bind]; [|reflexivity].
+  rewrite build_candidates_o_asc.
+  destruct (build_candidates w K_INTERLEAVED ig e1 s1) as [[[c2 e2] s2]|k]; cbn [bind]; [|reflexivity].
+  change (find_neighbouring_o en_asc un2 c2) with (find_neighbouring un2 c2).
+  rewrite build_candidates_o_asc.
+  destruct (build_candidates w K_NEIGHBOURING (find_neighbouring un2 c2) e2 s2) as [[[c3 e3] s3]|k]; cbn [bind]; [|reflexivity].
+  reflexivity.
+Qed.
+
+(* ---- the statements of Theorems.v *)
+Definition tie_guard (P : list proto) : Prop :=
+  forall a b, In a P -> In b P -> pkey a = pkey b -> prekey a = prekey b -> a = b.
+
+Lemma proper_simple : forall P, Forall proper2 P -> Forall simple P.
+Proof.
+  intros P H. rewrite Forall_forall in *. intros x Hx. destruct (H x Hx) as [[[s e st] [Hq Hlt]] _].
+  exists s, e, st. split; [exact Hq|cbn [ps pe] in Hlt; lia].
+Qed.
+
+Lemma formation_perm_partial_proof : forall P w en en',
+  Forall simple P -> NoDup (map pid P) -> tie_guard P ->
+  enumerator en -> enumerator en' -> tie_neutral P en -> tie_neutral P en' ->
+  linear_or_neutral P w en -> linear_or_neutral P w en' ->
+  create_candidates_o en P w = create_candidates_o en' P w.
+Proof.
+  intros P w en en' HS HN HG He He' Ht Ht' Hd Hd'.
+  rewrite (create_candidates_en P HS HN HG en He Ht w Hd), (create_candidates_en P HS HN HG en' He' Ht' w Hd'). reflexivity.
+Qed.
+
+(* when no two protoclusters share their coordinates or their core start, every enumerator is tie neutral *)
+Lemma lexpp_irrefl : forall a, lexpp a a = false.
+Proof. intros a. apply lex2_irrefl. Qed.
+Lemma lexpp_trans : forall a b c, lexpp a b = true -> lexpp b c = true -> lexpp a c = true.
+Proof. intros a b c. apply lex2_trans. Qed.
+
+Lemma tie_neutral_distinct : forall P en, Forall simple P -> enumerator en ->
+  (forall a b, In a P -> In b P -> pkey a = pkey b -> a = b) ->
+  tie_neutral P en.
+Proof.
+  intros P en HS Hen Hk.
+  assert (Hlt : forall k s, incl s P -> sort_by lt_pp (en k s) = sort_by lt_pp (iter s)).
+  { intros k s Hs.
+    assert (Hin : forall x, In x (en k s) -> In x P).
+    { intros x Hx. apply Hs. apply P5.In_iter. apply (Permutation_in _ (Hen k s)). exact Hx. }
+    assert (Hin2 : forall x, In x (iter s) -> In x P) by (intros x Hx; apply Hs; apply P5.In_iter; exact Hx).
+    rewrite Forall_forall in HS.
+    rewrite (sort_by_ext_in lt_pp lexpp (en k s)) by (intros a b Ia Ib; apply lt_pp_simple; apply HS; apply Hin; assumption).
+    rewrite (sort_by_ext_in lt_pp lexpp (iter s)) by (intros a b Ia Ib; apply lt_pp_simple; apply HS; apply Hin2; assumption).
+    apply (sort_by_perm_unique lexpp lexpp_irrefl lexpp_trans); [apply Hen|].
+    intros a b Ia Ib H1 H2. apply Hk; [apply Hin; exact Ia|apply Hin; exact Ib|]. apply lex2_total; assumption. }
+  split; apply Hlt.
+Qed.
+
+Lemma formation_perm_linear_proof : forall P en en',
+  Forall proper2 P -> NoDup (map pid P) ->
+  (forall a b, In a P -> In b P -> pkey a = pkey b -> a = b) ->
+  enumerator en -> enumerator en' ->
+  create_candidates_o en P None = create_candidates_o en' P None.
+Proof.
+  intros P en en' Hpr HN Hk He He'. pose proof (proper_simple P Hpr) as HS.
+  apply formation_perm_partial_proof; try assumption.
+  - intros a b Ia Ib E _. apply Hk; assumption.
+  - apply tie_neutral_distinct; assumption.
+  - apply tie_neutral_distinct; assumption.
+  - left. split; [reflexivity|exact Hpr].
+  - left. split; [reflexivity|exact Hpr].
+Qed.
+
+Lemma en_desc_enumerator : enumerator en_desc.
+Proof. intros k s. unfold en_desc. apply Permutation_sym. apply Permutation_rev. Qed.
+Lemma en_hash_enumerator : forall a b m, enumerator (en_hash a b m).
+Proof. intros a b m k s. unfold en_hash. apply sort_by_perm. Qed.
+Lemma en_asc_enumerator : enumerator en_asc.
+Proof. intros k s. apply Permutation_refl. Qed.
+(* descending id wherever the result is claimed independent, ascending id at the plain sorts / the edge loop *)
+Definition en_mixed : enum := fun k s => if (k =? 5) || (k =? 7) || (k =? 8) || (k =? 9) then iter s else rev (iter s).
+Lemma en_mixed_enumerator : enumerator en_mixed.
+Proof.
+  intros k s. unfold en_mixed. destruct ((k =? 5) || (k =? 7) || (k =? 8) || (k =? 9)); [apply Permutation_refl|].
+  apply Permutation_sym. apply Permutation_rev.
+Qed.
+Lemma en_mixed_neutral : forall P w, tie_neutral P en_mixed /\ linear_or_neutral P w en_mixed.
+Proof. intros P w. split; [split; intros s _; reflexivity|right; split; intros s _; reflexivity]. Qed.
+Lemma en_asc_neutral : forall P w, tie_neutral P en_asc /\ linear_or_neutral P w en_asc.
+Proof. intros P w. split; [split; intros s _; reflexivity|right; split; intros s _; reflexivity]. Qed.
+
 (* ================================================================== composition *)
-Lemma pipeline_partial_proof : forall neighbour table N c nb crossing RN
-    (hits hits' : list (Z * C13.Model.hit)) (genes genes' : list agene) (group group' : list proto)
+Lemma pipeline_partial_proof : forall neighbour table N c nb crossing RN w
+    (hits hits' : list (Z * C13.Model.hit)) (genes genes' : list agene) (P : list proto) (en en' : enum)
     (protos protos' : list uproto) (names names' notes notes' : list (list Z)),
-  Permutation hits hits' -> Permutation genes genes' -> Permutation group group' ->
+  Permutation hits hits' -> Permutation genes genes' ->
+  enumerator en -> enumerator en' ->
   Permutation protos protos' -> (forall x, In x names <-> In x names') -> Permutation notes notes' ->
-  Forall simple group ->
-  (forall a b, In a group -> In b group -> pkey a = pkey b -> prekey a = prekey b -> a = b) ->
+  Forall simple P -> NoDup (map pid P) -> tie_guard P ->
+  tie_neutral P en -> tie_neutral P en' -> linear_or_neutral P w en -> linear_or_neutral P w en' ->
   (crossing = true -> forall a b, In a protos -> In b protos -> red_key RN a = red_key RN b -> a = b) ->
   (crossing = false -> Forall wf_u protos /\
                        forall a b, In a protos -> In b protos -> lin_key a = lin_key b -> upre_key a = upre_key b -> a = b) ->
   refine_o neighbour table hits = refine_o neighbour table hits' /\
   find_protoclusters_o N c nb genes = find_protoclusters_o N c nb genes' /\
-  ordered_list group = ordered_list group' /\
+  create_candidates_o en P w = create_candidates_o en' P w /\
+  (forall g g', incl g P -> Permutation g g' -> ordered_list g = ordered_list g') /\
   unique_protoclusters crossing RN protos = unique_protoclusters crossing RN protos' /\
   sorted_set names = sorted_set names' /\
   sorted_list notes = sorted_list notes'.
 Proof.
-  intros neighbour table N c nb crossing RN hits hits' genes genes' group group' protos protos' names names' notes notes'
-         H1 H2 H3 H4 H5 H6 Hs Hg Hc Hu.
+  intros neighbour table N c nb crossing RN w hits hits' genes genes' P en en' protos protos' names names' notes notes'
+         H1 H2 He He' H4 H5 H6 HS HN HG Ht Ht' Hd Hd' Hc Hu.
   split; [apply refine_o_perm_proof; exact H1|].
   split; [apply find_protoclusters_perm_proof; exact H2|].
-  split; [apply ordered_perm_proof; assumption|].
+  split; [apply formation_perm_partial_proof; assumption|].
+  split; [intros g g' Hg Hp; apply (ordered_perm_P P HS HG); assumption|].
   split.
   - unfold unique_protoclusters. destruct crossing.
     + apply unique_crossing_perm_proof; [exact H4|apply Hc; reflexivity].
